@@ -50,6 +50,8 @@ static void iso_operator(int item, Ctx& ctx) {
     vf_log(K_VABORT, item, 0);
     ctx.abort();
   }
+  if (p.pause_owning)
+    galois::substrate::asmPause(); // lingers while owning its neighbourhood
   ctx.cautiousPoint();
   vf_log(K_COMMIT, item, att);
   // (a) exclusive ownership: all my stamps are still mine
@@ -170,6 +172,22 @@ static std::vector<Program> iso_programs() {
                item({0}, {}, {}), item({1}, {}, {})};
     v.push_back(p);
   }
+  {
+    // item 1 takes object 1 as its SECOND object, exactly what item 0 gives
+    // up first when it commits, and then lingers (pause) while owning both:
+    // whatever item 0's commit still does to object 1 after letting go of it
+    // lands in item 1's ownership list
+    Program p;
+    p.name  = "handoff";
+    p.ninit = 2;
+    p.items = {item({0, 1}, {}, {}), item({2, 1}, {}, {2, 3}), item({2}, {}, {}),
+               item({2, 0}, {}, {})};
+    p.items[1].pause_owning = true;
+    v.push_back(p);
+    p.name  = "handoff-abort"; // the same with item 0 giving up by abort first
+    p.items[0].vabort = true;
+    v.push_back(p);
+  }
   return v;
 }
 
@@ -206,6 +224,8 @@ int main(int argc, char** argv) {
     add(w.n, w.r, P["triangle"], {2}, 2, def ? 1 : -1, 2, 4);
     add(w.n, w.r, P["reacquire"], {1, 1}, 2, def ? 1 : -1, 2, 4);
     add(w.n, w.r, P["abort-heavy"], {2}, 2, 1, 2, 4);
+    add(w.n, w.r, P["handoff"], {2}, 2, 1, 2, 4);
+    add(w.n, w.r, P["handoff-abort"], {1, 1}, 2, def ? 1 : -1, 2, 4);
     if (def)
       add(w.n, w.r, P["big-push"], {2}, 2, 0, 1, 4);
     add(w.n, w.r, P["fan"], {1, 1}, 2, -1, 2, 4);
